@@ -161,10 +161,12 @@ func (c *hconn) unread() int { return len(c.outbox) - c.peerRead }
 // B the outgoing (destination side) one.
 type pair struct {
 	A, B *hconn
+	k    int
 }
 
 func newPair(w *fworld, k, capacity int) *pair {
 	return &pair{
+		k: k,
 		A: &hconn{w: w, name: fmt.Sprintf("A%d", k), cap: capacity},
 		B: &hconn{w: w, name: fmt.Sprintf("B%d", k), cap: capacity},
 	}
@@ -189,6 +191,9 @@ type fevent struct {
 
 func (e fevent) String() string {
 	s := e.Op
+	if e.Op == "accept" && e.N > 1 {
+		s += fmt.Sprintf("*%d", e.N)
+	}
 	if e.Side != "" {
 		s += fmt.Sprintf("(%d%s", e.K, e.Side)
 		if e.N > 0 {
@@ -208,7 +213,8 @@ func (p *pair) apply(e fevent) {
 	switch e.Op {
 	case "send":
 		for i := 0; i < e.N; i++ {
-			b := byte(len(c.sent))
+			// Position-stamped and distinct per connection and side.
+			b := byte(len(c.sent)&0x1f) | byte(p.k&3)<<5
 			if e.Side == "B" {
 				b |= 0x80
 			}
@@ -418,6 +424,7 @@ func runRelay(t *testing.T, c c33case, sizes []int, verbose bool) (res fresult) 
 // ---------------------------------------------------------------------------
 
 type fakeEndpoint struct {
+	gate  sync.Mutex // held by the harness while it queues a burst of connections
 	queue chan net.Conn
 	shut  chan struct{}
 	fail  chan struct{}
@@ -432,6 +439,10 @@ func (e *fakeEndpoint) TransportErrors() <-chan error { return nil }
 func (e *fakeEndpoint) Open() (net.Conn, error) {
 	select {
 	case c := <-e.queue:
+		// A burst becomes visible only as a whole: all its connections are pending at
+		// the listener by the time the first one is handed out.
+		e.gate.Lock()
+		e.gate.Unlock()
 		return c, nil
 	case <-e.shut:
 		return nil, errors.New("harness: endpoint shut down")
@@ -570,11 +581,21 @@ func (mw *managerWorker) run(c c33case, verbose bool) (res fresult) {
 			e := c.Events[j]
 			switch e.Op {
 			case "accept":
-				p := newPair(w, len(pairs), 0)
-				pairs = append(pairs, p)
-				// The dialled connection must be available before the listener yields.
-				sc.destination.queue <- p.B
-				sc.source.queue <- p.A
+				// N > 1: a burst - N connections are pending at the source before the
+				// controller's accept loop gets to run again.
+				n := e.N
+				if n < 1 {
+					n = 1
+				}
+				sc.source.gate.Lock()
+				for i := 0; i < n; i++ {
+					p := newPair(w, len(pairs), 0)
+					pairs = append(pairs, p)
+					// The dialled connection must be available before the listener yields.
+					sc.destination.queue <- p.B
+					sc.source.queue <- p.A
+				}
+				sc.source.gate.Unlock()
 			case "pause":
 				cancelled = true
 				after = append(after, func() {
@@ -614,6 +635,9 @@ func (mw *managerWorker) run(c c33case, verbose bool) (res fresult) {
 		if !cancelled {
 			if len(pairs) < 2 {
 				res.enabled = append(res.enabled, fevent{Op: "accept"})
+			}
+			for n := 2; len(pairs)+n <= 3; n++ {
+				res.enabled = append(res.enabled, fevent{Op: "accept", N: n})
 			}
 			for k, p := range pairs {
 				res.enabled = append(res.enabled, p.enabled(k, []int{1 + (len(p.A.sent)+len(p.B.sent))%3})...)
@@ -687,7 +711,16 @@ type explorer struct {
 // dfs explores every history below prefix (prefix itself has been run by the
 // caller and had the given enabled set).
 func (x *explorer) dfs(l *vr.Local, prefix []fevent, enabled []fevent) {
-	if len(prefix) >= x.depth {
+	// Depth counts connections for bursts: accept*N costs N.
+	cost := 0
+	for _, e := range prefix {
+		if e.Op == "accept" && e.N > 1 {
+			cost += e.N
+		} else {
+			cost++
+		}
+	}
+	if cost >= x.depth {
 		return
 	}
 	if x.expired.Load() {
@@ -827,12 +860,12 @@ func TestC33(t *testing.T) {
 	defer timer.Stop()
 	r.Rule(fmt.Sprintf("E-bubble (testing/synctest), every event followed by quiescence and the oracle. "+
 		"Leg R: real forwarding.ForwardAndClose on one harness connection pair; events send(side,1..3 bytes), half-close(side), fail(side), cancel; all histories to depth %d with unbounded receivers; to depth %d where additionally every event may be joined atomically to its predecessor (no quiescence in between); to depth %d with receivers bounded to 1 unread byte plus drain(side) events (relay blocked in Write). "+
-		"Leg M: real forwarding.Manager/controller with a fake protocol handler and endpoints; <=2 accepted connections; events accept, send(k,side) (sizes cycle 1,2,3), half-close(k,side), fail(k,side), pause, listener failure; all histories to depth %d; counters read through Manager.List after every event; every session is terminated at the end and all its connections must be closed. "+
+		"Leg M: real forwarding.Manager/controller with a fake protocol handler and endpoints; <=2 connections accepted one at a time or <=3 with bursts; events accept, accept*2 / accept*3 (a burst: that many connections pending at the source before the accept loop runs again), send(k,side) (sizes cycle 1,2,3), half-close(k,side), fail(k,side), pause, listener failure; all histories to depth %d (a burst of N counts N); counters read through Manager.List after every event; every session is terminated at the end and all its connections must be closed. "+
 		"non-trivial = history with at least one event; distinct by (leg, bound, event list)", relayDepth, relayJoinedDepth, boundedDepth, managerDepth))
 	r.Assume("connections are harness net.Conn implementations with CloseWrite; a peer failure is a reset: the relay's next Read or Write on that connection fails and unread in-flight bytes may be lost",
 		"goroutine interleavings inside one quiescence step are not enumerated (owned by the Go scheduler); joined events cover peer actions that land before the relay reacts",
 		"statistics are compared while the forwarding loop runs; the controller replaces its State when the loop ends (pause/termination/listener failure), so after cancellation only OpenConnections==0 is demanded",
-		"payload bytes are position-stamped (distinct per offset and side), sizes 1..3; at most 2 concurrent connections")
+		"payload bytes are position-stamped (distinct per offset, side and connection), sizes 1..3; at most 3 concurrent connections")
 
 	// ---- leg R ----
 	relayLeg := func(name string, capacity, depth int, joined bool) {
